@@ -21,6 +21,9 @@ op  = ["bind", m, prefix|None, ns, override, replace]   Graph.bind / NamespaceMa
       ["sertrig", 1, [[kind, graph IRI, [[s, p, o, kind]…]]…]]  serialize(format="trig") of a Dataset whose named graphs
                                          (kind "g") go through manager 0 and whose default graph (kind "d") through manager 1;
                                          one document, one @prefix table; both managers are reset() afterwards
+      ["serxml", m, [[s, p, o, kind]…]]  serialize(format="xml") of a fresh graph (same store, same manager): compute_qname_strict
+                                         (generate) for every predicate, then qname_strict per statement; the OUTPUT is checked (xmlns
+                                         table, re-parse) and its xmlns table compared with the model's; no reset afterwards
       ["serdoc", m, fmt, [[s, p, o, kind]…]]  serialize(format=turtle|n3|longturtle|longturtle-canon|trig) of a fresh graph (same store, same
                                          manager) holding these triples (kind "u" IRI / "l" plain literal); the
                                          OUTPUT is checked (prefix table, re-parse) and its @prefix table is
@@ -86,6 +89,7 @@ STRICT_HEAD = {"1a": "1", "٣x": "٣", "%20x": "%20"}
 PREFIX_POOL = ["a", "b", "c", "_a", "_b", "", "ns1", "ns2", "a1", "b1", "default1", "é", "x.y", "A", "default", "_a1",
                "p_a", "p_b", "pp_a", "_", "_", "__", "_1"]
 DOC_LOCALS = ["x", "y1", "b", "s", "o2", "q", "y.", "x"]
+XML_LOCALS = DOC_LOCALS + ["1a", "٣x", "x-1", "_z", "é", "a.b", "-d", "1", "x"]  # predicates of RDF/XML documents (strict split)
 SPECIAL_IRIS = [XMLNS + "a" + XMLNS + "b", "http://e.org/a b", "http://e.org/<x>", "", "/ab/-", "abc", XMLNS, XMLNS + "lang",
                 "http://e.org/a/b/c", "http://e.org/", "urn:x:y:z"]
 
@@ -286,7 +290,7 @@ def _gen_case(rng, tier, i):
             ops.append(list(rng.choice(qs)))  # ask again later: (q, bind, q) interleavings
             continue
         kind = _w(rng, [("bind", 38), ("sbind", 3), ("qname", 12), ("cq", 9), ("cqs", 5), ("qstrict", 3), ("curie", 7),
-                        ("n3", 6), ("expand", 4), ("reset", 3), ("parse", 4), ("parsexml", 2), ("ser", 3), ("serdoc", 4), ("sertrig", 2), ("split", 7), ("ncname", 2), ("badinit", 1)])
+                        ("n3", 6), ("expand", 4), ("reset", 3), ("parse", 4), ("parsexml", 2), ("ser", 3), ("serdoc", 4), ("sertrig", 2), ("serxml", 3), ("split", 7), ("ncname", 2), ("badinit", 1)])
         if kind == "bind":
             ov, rp = _w(rng, [((True, False), 5), ((False, False), 2), ((True, True), 2), ((False, True), 2)])
             ops.append(["bind", mgr(), pre(), rng.choice(vn), ov, rp])
@@ -326,6 +330,14 @@ def _gen_case(rng, tier, i):
             ops.append(["badinit", rng.choice(["cc", "cc", "bogus", "RDFLIB", ""])])
         elif kind == "sertrig":
             ops.append(["sertrig", 1, _trig_contexts(rng, absns, counter)])
+        elif kind == "serxml":
+            # `%`, `(`, `)` are name characters for rdflib's is_ncname but not for XML: an element name with them is
+            # not well-formed XML — a syntax defect of the RDF/XML writer, outside this property (see design.d/C17.md)
+            xns = [n for n in absns if not any(c in n for c in "%()")] or ["http://e.org/"]
+            ts = _doc_triples(rng, absns, counter, rng.randint(1, 4))
+            for t in ts:
+                t[1] = rng.choice(xns) + rng.choice(XML_LOCALS)
+            ops.append(["serxml", mgr(), ts])
         elif kind == "serdoc":
             ops.append(["serdoc", mgr(), rng.choice(DOC_FORMATS), _doc_triples(rng, absns, counter, rng.randint(1, 4))])
     case = {"cfg": cfg, "bn": bn, "bn1": bn1, "vp": vp, "vn": vn, "ops": ops}
@@ -397,6 +409,30 @@ def doc_order_canon(triples):
     g2.parse(data="\n".join(lines), format="application/n-triples", skolemize=True)
     g3 = g2.de_skolemize()
     return [[str(a), str(b), str(c), "l" if isinstance(c, Literal) else "u"] for a, b, c in g3.triples((None, None, None))]
+
+
+def xml_order(store_kind, triples, k):
+    """(set of predicates in its iteration order, predicate of every statement in the order written) as
+    XMLSerializer meets them: `set(store.predicates())`, then subjects() / predicate_objects(subject) — read
+    off a scratch graph fed the same way in the same process (hash seed)"""
+    g = Graph(store=SimpleMemory() if store_kind == "simple" else Memory(), identifier=doc_ctx(k))
+    for s_, p_, o_, kd in triples:
+        g.add((URIRef(s_), URIRef(p_), _term(o_, kd)))
+    preds = [str(p_) for p_ in set(g.predicates())]
+    stmts, seen = [], set()
+    for s_ in g.subjects():
+        if s_ not in seen:
+            seen.add(s_)
+            stmts += [str(p_) for p_, _o in g.predicate_objects(s_)]
+    return preds, stmts
+
+
+_XMLNS_ATTR = re.compile(r"""\sxmlns(?::([^\s=]+))?=(?:"([^"]*)"|'([^']*)')""")
+
+
+def xml_prefix_table(text):
+    head = text[: text.index(">\n", text.index("<rdf:RDF")) + 1] if "<rdf:RDF" in text else ""
+    return [(m.group(1) or "", m.group(2) if m.group(2) is not None else m.group(3)) for m in _XMLNS_ATTR.finditer(head)]
 
 
 def build_trig_dataset(ctxs, nm0=None, nm1=None):
@@ -554,6 +590,24 @@ class Impl:
                 tmp.remove(t)
             nm.reset()
 
+    def serxml(self, op):
+        _k, m, triples = op
+        nm = self.g[m].namespace_manager
+        if doc_store_kind(self.case, m) == "simple":
+            tmp = self.g[m]
+        else:
+            st = self.own if (self.cfg == "foreign" and m == 0) else self.store
+            tmp = Graph(store=st, identifier=doc_ctx(self.k), namespace_manager=nm)
+        ts = [(URIRef(s_), URIRef(p_), _term(o_, kd)) for s_, p_, o_, kd in triples]
+        for t in ts:
+            tmp.add(t)
+        self.doc_problems = []
+        try:
+            return self.check_doc(tmp.serialize(format="xml"), "xml", set(ts)), None
+        finally:
+            for t in ts:
+                tmp.remove(t)
+
     def sertrig(self, op):
         nm0, nm1 = self.g[0].namespace_manager, self.g[1].namespace_manager
         ds2, quads = build_trig_dataset(op[2], nm0, nm1)
@@ -567,7 +621,7 @@ class Impl:
     def check_doc(self, text, fmt, ts, quads=False):
         """oracle on the OUTPUT of a serialisation (independent of Lean): no prefix declared twice, the text reads
         back as exactly the triples (quads) written; returns the observation line (the @prefix table)"""
-        table = doc_prefix_table(text)
+        table = xml_prefix_table(text) if fmt == "xml" else doc_prefix_table(text)
         ps = [p for p, _n in table]
         if len(set(ps)) != len(ps):
             self.doc_problems.append("docprefix: a prefix is declared twice in the %s output: %r" % (fmt, sorted(table)))
@@ -628,6 +682,8 @@ class Impl:
             return self.serdoc(op)
         if kind == "sertrig":
             return self.sertrig(op)
+        if kind == "serxml":
+            return self.serxml(op)
         if kind == "badinit":
             if alt:
                 Graph(store=self.store, bind_namespaces=op[1]).namespace_manager
@@ -788,10 +844,10 @@ def run_impl(case):
                 viol.append(f"raises-{type(e).__name__}: step {k} {kind} raised {type(e).__name__}: {str(e)[:80]}")
         if kind not in ("bind", "sbind", "minit", "parse", "parsexml") and len(list(im.store.namespaces())) > before:
             stats["generated"] = stats.get("generated", 0) + 1
-        if kind in ("serdoc", "sertrig"):
+        if kind in ("serdoc", "sertrig", "serxml"):
             viol += ["%s (step %d)" % (x, k) for x in im.doc_problems]
             im.doc_problems = []
-            fm = op[2] if kind == "serdoc" else "trig-dataset"
+            fm = op[2] if kind == "serdoc" else ("trig-dataset" if kind == "sertrig" else "xml")
             stats["serdoc_" + fm] = stats.get("serdoc_" + fm, 0) + 1
         _check_bij(im, case, k, viol)
         if kind == "split" and res is not None:
@@ -850,6 +906,9 @@ def model_lines(case):
             lines.append(f"ser {op[1]} {_e(op[2])} {_e(op[3])} {_e(op[4])}")
         elif k == "badinit":
             lines.append("minit 0 " + ("cc" if op[1] == "cc" else "bogus"))
+        elif k == "serxml":
+            preds, stmts = xml_order(doc_store_kind(case, op[1]), op[2], idx + 1)
+            lines.append(f"serxml {op[1]} " + " ".join(_e(u) for u in preds) + " / " + " ".join(_e(u) for u in stmts))
         elif k == "sertrig":
             # fb = 0: the written dataset lives on a store of its own, which holds no bindings
             lines.append("sertrig 0 " + " / ".join(
@@ -890,6 +949,9 @@ def shrink(case):
         if op[0] == "serdoc" and len(op[3]) > 1:
             for j in range(len(op[3])):
                 yield {**case, "ops": ops[:i] + [[op[0], op[1], op[2], op[3][:j] + op[3][j + 1:]]] + ops[i + 1:]}
+        if op[0] == "serxml" and len(op[2]) > 1:
+            for j in range(len(op[2])):
+                yield {**case, "ops": ops[:i] + [[op[0], op[1], op[2][:j] + op[2][j + 1:]]] + ops[i + 1:]}
         if op[0] == "sertrig":
             for j in range(len(op[2])):
                 if len(op[2]) > 1:
